@@ -232,3 +232,11 @@ def z5(ctx):
 
 
 RULES.append(z5)
+
+
+@rule("MC", doc="must-call census: no function of this property's files has gained an early exit in front of work it always did (every crate-local call that lay on all paths to a normal return in the reviewed tree still does)")
+def mc(ctx):
+    C.must_call_census(ctx, ctx.lib(), ['src/lib.rs', 'src/slot.rs', 'src/egraph/rebuild.rs', 'src/explain/show.rs', 'src/rewrite/ematch.rs'])
+
+
+RULES.append(mc)
